@@ -182,6 +182,15 @@ def obs_pipeline(prop, tier, seed, work, t0, flavor="sync"):
         log(mc["out"][-5000:])
         raise ToolError("MCObs: the model violates its invariants (model error, not a verdict on the code)")
     log("MC: %d distinct states, %d transitions, %.1fs" % (mc["distinct"], mc["generated"], mc["wall"]))
+    proof = None
+    if not quick and prop in ("C01", "C02", "C03"):
+        # unbounded part: the invariants behind C01-C03 are inductive for Obs!Spec (any id sets, any depth)
+        proof = tlaps("ObsProofs", work)
+        if not proof["ok"]:
+            log(proof["out"][-4000:])
+            raise ToolError("ObsProofs: tlapm could not prove the inductive invariant of Obs.tla (%d/%d): specification error" %
+                            (proof["proved"], proof["total"]))
+        log("TLAPS: %d obligations proved in %.1fs" % (proof["proved"], proof["wall"]))
     # ---- 2. spec -> impl: behaviours
     beh = os.path.join(work, "beh.ndjson")
     n = 0
@@ -234,6 +243,10 @@ def obs_pipeline(prop, tier, seed, work, t0, flavor="sync"):
                  harness_hang=(hrc == 3),
                  mc_config="Obs.tla, NV=3, 2 owners, 2 subscribers, 1 weak, 2 guards, <= %d operations" % (5 if quick else 7),
                  exhaustive=False)
+    if proof:
+        extra["tlaps"] = dict(module="ObsProofs.tla", obligations_proved=proof["proved"], wall_s=round(proof["wall"], 1),
+                              theorem="Spec => [](ReadyIffUnseen /\\ ObservedLeVer /\\ NoLostWake /\\ ArmedRegisteredOrWoken /\\ ClosedIffNoOwner) "
+                                      "for any NV, id sets and history length")
     if prop == "C19" and flavor == "sync":
         # "for both lock flavours": the same handle histories on the async-lock flavour
         trace2 = os.path.join(work, "trace-async.ndjson")
@@ -1265,16 +1278,16 @@ CHECKS["C04"] = lin_pipeline
 
 
 # =========================================================================== C16: async-lock flavour
-OBSA_TRACE = dict(OBS_TRACE, FutIds={1, 2}, Flavor="async")
+OBSA_TRACE = dict(OBS_TRACE, FutIds={1, 2}, MaxQ=8, Flavor="async")
 
 
 def async_pipeline(prop, tier, seed, work, t0):
     quick = tier == "quick"
-    a_mc = dict(OBS_MC, FutIds={1})
+    a_mc = dict(OBS_MC, FutIds={1, 2}, MaxQ=2)
     cfg = os.path.join(work, "MCObsAsync.cfg")
     write_cfg(cfg, spec="ASpec", constants=dict(a_mc, Depth=6 if quick else 7), view="View", constraints=["Bound"],
-              invariants=["TypeOK", "ReadyIffUnseen", "NoLostWake", "ClosedIffNoOwner", "LockExclusion", "LockWaitersWoken",
-                          "WokenWriterCompletes", "WokenReaderProceeds"])
+              invariants=["TypeOK", "ATypeOK", "ReadyIffUnseen", "NoLostWake", "ClosedIffNoOwner", "LockExclusion", "GrantExclusion",
+                          "EagerService", "WaitersConsistent", "LockWaitersWoken", "WokenWriterCompletes", "WokenReaderProceeds"])
     mc = tlc("GenObsAsync", cfg, work, workers=8, timeout=3000, tag="mc")
     if not tlc_ok(mc, "ObsAsync"):
         log(mc["out"][-5000:])
@@ -1307,9 +1320,18 @@ def async_pipeline(prop, tier, seed, work, t0):
     k, _ = gen_behaviours("GenObsAsync", c, work, beh, "edge", tag="aedge", workers=12, timeout=3000)
     n += k
     log("gen async edge: %d" % k)
+    # the waiting regime (FIFO queue of the lock, grants, next_ref's second acquisition): complete trees
+    for j, (subs_, d) in enumerate([({1}, 9 if quick else 10), ({1, 2}, 8 if quick else 9)]):
+        c = os.path.join(work, "GenAWait%d.cfg" % j)
+        write_cfg(c, spec="SpecAWait", constants=dict(NV=3, OwnerIds={1}, SubIds=subs_, WeakIds={1}, GuardIds={1}, Kinds={"shared"},
+                                                     FutIds={1, 2}, MaxQ=3, Depth=d),
+                  constraints=["BoundTree"], invariants=["PrintAtDepth"])
+        k, _ = gen_behaviours("GenObsAsync", c, work, beh, "tree", tag="await%d" % j, workers=12, timeout=3000)
+        n += k
+        log("gen async wait tree %s: %d" % (sorted(subs_), k))
     c = os.path.join(work, "GenASim.cfg")
     write_cfg(c, spec="ASpec", constants=dict(NV=3, OwnerIds={1, 2, 3}, SubIds={1, 2, 3, 4}, WeakIds={1}, GuardIds={1, 2}, FutIds={1, 2},
-                                             Kinds={"unique", "shared"}, Depth=40),
+                                             Kinds={"unique", "shared"}, MaxQ=3, Depth=40),
               constraints=["BoundTree"], invariants=["PrintAtDepth"])
     k, _ = gen_behaviours("GenObsAsync", c, work, beh, "sim", num=300 if quick else 20000, depth=41, seed=seed, tag="asim", timeout=1500)
     n += k
